@@ -56,6 +56,11 @@ def run_step(step, heap):
     if op == "new_local":
         # library-built local fermionic operators (dense -> from_dense path)
         fn = getattr(sr, a["fn"])
+        if "edges" in a:
+            # edge-wise Hamiltonian builders: one term of the returned dict
+            edges = [tuple(e) for e in a["edges"]]
+            terms = fn(a["sym"], edges, *a.get("args", []))
+            return terms[edges[a["pick"]]]
         return fn(a["sym"], *a.get("args", []))
     if op == "repr":
         return len(str(x)) * 0 + len(repr(x)) * 0 + 1
@@ -117,6 +122,19 @@ def run_step(step, heap):
         x.check()
         if a.get("aligned"):
             x.check_chargemaps_aligned()
+        # further read-only diagnostics (their own outcome is not judged)
+        try:
+            ax = tuple(range(x.ndim))
+            x.check_with(x.conj(), ax, ax)
+        except AssertionError:
+            pass
+        import contextlib
+        import io
+        with contextlib.redirect_stdout(io.StringIO()):
+            try:
+                sr.abelian_core.print_fuseinfo_cache_stats()
+            except ZeroDivisionError:
+                pass
         return 1
     if op == "reparam":
         # the re-parametrisation round trip optimisers do with block arrays:
@@ -632,6 +650,17 @@ def g_new(ctx, heap):
         fn = ctx.rng.choice(sorted(LOCAL_BUILDERS))
         syms, nargs = LOCAL_BUILDERS[fn]
         ok = [s for s in ctx.syms if s in syms]
+        if ok and nargs == 3 and ctx.rng.random() < 0.5:
+            # the same terms through the edge-wise Hamiltonian builders
+            # (coordination numbers come from the lattice)
+            edges = ctx.rng.choice([[[0, 1]], [[0, 1], [1, 2]], [[0, 1], [1, 2], [0, 2]],
+                                    [[0, 1], [0, 2], [0, 3]]])
+            hfn = {"fermi_hubbard_local_array": "ham_fermi_hubbard_from_edges",
+                   "fermi_hubbard_spinless_local_array": "ham_fermi_hubbard_spinless_from_edges"}[fn]
+            args = [ctx.rng.choice([1.0, 0.5, -2.0]) for _ in range(nargs)]
+            return [{"op": "new_local", "in": [], "out": [ctx.fresh()],
+                     "a": {"fn": hfn, "sym": ctx.rng.choice(ok), "args": args,
+                           "edges": edges, "pick": ctx.rng.randrange(len(edges))}}]
         if ok:
             args = [ctx.rng.choice([1.0, 0.5, -2.0]) for _ in range(nargs)]
             return [{"op": "new_local", "in": [], "out": [ctx.fresh()],
